@@ -49,9 +49,11 @@ pub fn run(ctx: &Ctx, rec: &mut Rec) {
     par(rec, |w, n, rec| {
         let mut rng = rng_for(ctx.seed, P, w, 1);
         let mut task = 0usize;
-        for e in &els {
-            // structured scalars + a few random ones per element
-            let mut scalars: Vec<(B, &'static str)> = szoo.clone();
+        for (ei, e) in els.iter().enumerate() {
+            // structured scalars + a few random ones per element; the two big families (recoding runs,
+            // ladder collisions) go to every 6th element operand (thorough: every 2nd)
+            let big = ei % ctx.scale(6, 2) == 0;
+            let mut scalars: Vec<(B, &'static str)> = szoo.iter().filter(|(_, cl)| big || !(*cl == "recoding-run" || *cl == "ladder-collision")).cloned().collect();
             for _ in 0..ctx.scale(8, 24) {
                 scalars.push((rand_below(&mut rng, &c.r), "random"));
             }
